@@ -43,7 +43,9 @@ PINS = {
             P + 'timing.py:*', P + 'context.py:Scope.__aexit__', P + 'context.py:Scope._await_children',
             'usim/_concurrent/basics.py:*', P + 'task.py:Task.__await__'],
 }
-SKIP = ('.__repr__', '.__str__', 'Lock.__enter__', 'Lock.__exit__')
+# (textual forms are NOT skipped: the close reason of a scope is built from repr(scope) -> repr(children) -> str(notification),
+# so a __repr__/__str__ that raises keeps children from being closed)
+SKIP = ('Lock.__enter__', 'Lock.__exit__')
 ANCHORS = {}
 try:
     import json as _json
